@@ -22,21 +22,22 @@ import (
 //     + S3 start-up under seeded goroutine schedules (SCHED): same built-ins, same probe results.
 
 type C08Stats struct {
-	CF          *CFStats        `json:"cf"`
-	S2Programs  int             `json:"s2_programs"`
-	S2Evals     int             `json:"s2_evaluations"`
-	S2Policies  map[string]int  `json:"s2_policies"`
-	S2Sites     map[string]int  `json:"s2_map_range_sites_hit"`
-	S2Perms     map[string]bool `json:"-"`
-	S2PermKeys  []string        `json:"s2_perm_keys"`
-	S2Permuted  int64           `json:"s2_map_ranges_permuted"`
-	S3Runs      int             `json:"s3_startup_schedules"`
-	S3Scheds    map[string]bool `json:"-"`
-	S3Keys      []string        `json:"s3_sched_keys"`
-	S3Switches  int64           `json:"s3_switches"`
-	Infra       int             `json:"infra_errors"`
-	InfraMsgs   []string        `json:"infra_msgs"`
-	Samples     []interface{}   `json:"samples"`
+	CF         *CFStats        `json:"cf"`
+	S2Programs int             `json:"s2_programs"`
+	S2Evals    int             `json:"s2_evaluations"`
+	S2Policies map[string]int  `json:"s2_policies"`
+	S2Sites    map[string]int  `json:"s2_map_range_sites_hit"`
+	S2Perms    map[string]bool `json:"-"`
+	S2PermKeys []string        `json:"s2_perm_keys"`
+	S2Permuted int64           `json:"s2_map_ranges_permuted"`
+	S3Runs     int             `json:"s3_startup_schedules"`
+	S3Scheds   map[string]bool `json:"-"`
+	S3Keys     []string        `json:"s3_sched_keys"`
+	S3Switches int64           `json:"s3_switches"`
+	S3MapOrd   int             `json:"s3_with_permuted_map_order"`
+	Infra      int             `json:"infra_errors"`
+	InfraMsgs  []string        `json:"infra_msgs"`
+	Samples    []interface{}   `json:"samples"`
 }
 
 func newC08Stats() *C08Stats {
@@ -69,6 +70,7 @@ func (s *C08Stats) Merge(raw json.RawMessage) error {
 		S3Runs     int             `json:"s3_startup_schedules"`
 		S3Keys     []string        `json:"s3_sched_keys"`
 		S3Switches int64           `json:"s3_switches"`
+		S3MapOrd   int             `json:"s3_with_permuted_map_order"`
 		Infra      int             `json:"infra_errors"`
 		InfraMsgs  []string        `json:"infra_msgs"`
 		Samples    []interface{}   `json:"samples"`
@@ -84,6 +86,7 @@ func (s *C08Stats) Merge(raw json.RawMessage) error {
 	s.S2Permuted += aux.S2Permuted
 	s.S3Runs += aux.S3Runs
 	s.S3Switches += aux.S3Switches
+	s.S3MapOrd += aux.S3MapOrd
 	s.Infra += aux.Infra
 	for k, v := range aux.S2Policies {
 		s.S2Policies[k] += v
@@ -107,10 +110,10 @@ func (s *C08Stats) Merge(raw json.RawMessage) error {
 }
 
 type c08Check struct {
-	it      *harness.Interp
-	tier    string
-	refFP   string   // start-up fingerprint of this (unscheduled) process
-	refPr   []string // probe results of this process
+	it    *harness.Interp
+	tier  string
+	refFP string   // start-up fingerprint of this (unscheduled) process
+	refPr []string // probe results of this process
 }
 
 func (c *c08Check) ID() string      { return "C08" }
@@ -164,14 +167,14 @@ func richProfile(t *tape.Tape) gen.Profile {
 
 // mapPolicy is one way of ordering every dynamic map range of a run.
 type mapPolicy struct {
-	kind   string // identity reverse rotate random
-	rot    int
-	seed   uint64
-	pinned map[string]bool // sites forced to canonical order
-	only   map[string]bool // if non-nil: only these sites are permuted
-	hits   map[string]int
+	kind     string // identity reverse rotate random
+	rot      int
+	seed     uint64
+	pinned   map[string]bool // sites forced to canonical order
+	only     map[string]bool // if non-nil: only these sites are permuted
+	hits     map[string]int
 	permuted int64
-	sig    []byte
+	sig      []byte
 }
 
 func (p *mapPolicy) order(site string, n int) []int {
@@ -398,7 +401,20 @@ func (c *c08Check) stage3(seed, run uint64, t *tape.Tape, s *C08Stats, only *Vio
 			explicit = &schedOut{Tape: only.Tape, Switches: sw}
 		}
 	}
-	out, stderr, err := runSchedChild("startup", seed, run, explicit, 120*time.Second)
+	// half of the start-up runs also permute every map range (di.toPairs,
+	// mergePropContainers, AddPairs, InjectFrom ...) with a tape-chosen policy
+	var extra []string
+	mapord := ""
+	if only != nil {
+		mapord, _ = only.Derived["maporder"].(string)
+	} else if t.Chance(1, 2) {
+		mapord = fmt.Sprintf("%s:%d", []string{"reverse", "rotate", "random"}[t.Intn(3)], t.U32())
+	}
+	if mapord != "" {
+		extra = []string{"-maporder", mapord}
+		s.S3MapOrd++
+	}
+	out, stderr, err := runSchedChild("startup", seed, run, explicit, 120*time.Second, extra...)
 	if err != nil {
 		s.Infra++
 		if len(s.InfraMsgs) < 5 {
@@ -418,7 +434,7 @@ func (c *c08Check) stage3(seed, run uint64, t *tape.Tape, s *C08Stats, only *Vio
 	}
 	mk := func(sig string, exp, act interface{}) []Viol {
 		return []Viol{{Prop: "C08", Run: run, Seed: seed, Tape: out.Tape, Engine: "sched", Signature: sig,
-			Derived:  map[string]interface{}{"stage": 0, "mode": "startup", "schedule": out.Switches, "sched_hash": out.SchedHash},
+			Derived:  map[string]interface{}{"stage": 0, "mode": "startup", "schedule": out.Switches, "sched_hash": out.SchedHash, "maporder": mapord},
 			Expected: map[string]interface{}{"unscheduled": exp}, Actual: map[string]interface{}{"scheduled": act}}}
 	}
 	if out.Fingerprint != c.refFP {
@@ -443,28 +459,29 @@ func (c *c08Check) stage3(seed, run uint64, t *tape.Tape, s *C08Stats, only *Vio
 func (c *c08Check) Evidence(st Stats, tier string) (map[string]interface{}, []string) {
 	s := st.(*C08Stats)
 	cov := map[string]interface{}{
-		"evaluations":         s.CF.Evals + s.S2Evals + s.S3Runs,
-		"distinct_nontrivial": len(s.CF.Distinct) + len(s.S2Perms) + len(s.S3Scheds),
-		"rule":                "three stages. S1: generated program, fault-free slot trace vs the source-order model (distinct = program skeletons). S2: program (hash-sensitive template or generated) evaluated under the canonical and under tape-chosen map-iteration orders (reverse, rotation, random per occurrence) at every `range` over a Go map in the repository; distinct = distinct permutation vectors actually applied. S3: the real start-up under a seeded goroutine schedule in a fresh process; distinct = distinct schedule hashes. distinct_nontrivial is the sum of the three",
-		"samples":             s.Samples,
-		"s1_programs":         s.CF.Programs,
-		"s1_distinct_program_skeletons": len(s.CF.Distinct),
-		"s1_slot_invocations": s.CF.Slots,
-		"s1_constructs":       s.CF.Constructs,
-		"s1_model_unsure_skipped": s.CF.ModelUnsure,
-		"s1_parse_rejects":    s.CF.ParseRejects,
-		"s2_programs":         s.S2Programs,
-		"s2_evaluations":      s.S2Evals,
-		"s2_policies":         s.S2Policies,
+		"evaluations":                     s.CF.Evals + s.S2Evals + s.S3Runs,
+		"distinct_nontrivial":             len(s.CF.Distinct) + len(s.S2Perms) + len(s.S3Scheds),
+		"rule":                            "three stages. S1: generated program, fault-free slot trace vs the source-order model (distinct = program skeletons). S2: program (hash-sensitive template or generated) evaluated under the canonical and under tape-chosen map-iteration orders (reverse, rotation, random per occurrence) at every `range` over a Go map in the repository; distinct = distinct permutation vectors actually applied. S3: the real start-up under a seeded goroutine schedule in a fresh process; distinct = distinct schedule hashes. distinct_nontrivial is the sum of the three",
+		"samples":                         s.Samples,
+		"s1_programs":                     s.CF.Programs,
+		"s1_distinct_program_skeletons":   len(s.CF.Distinct),
+		"s1_slot_invocations":             s.CF.Slots,
+		"s1_constructs":                   s.CF.Constructs,
+		"s1_model_unsure_skipped":         s.CF.ModelUnsure,
+		"s1_parse_rejects":                s.CF.ParseRejects,
+		"s2_programs":                     s.S2Programs,
+		"s2_evaluations":                  s.S2Evals,
+		"s2_policies":                     s.S2Policies,
 		"s2_distinct_permutation_vectors": len(s.S2Perms),
-		"s2_map_ranges_permuted": s.S2Permuted,
-		"s2_map_range_sites_hit": s.S2Sites,
-		"s3_startup_schedules": s.S3Runs,
-		"s3_distinct_schedules": len(s.S3Scheds),
-		"s3_switches":         s.S3Switches,
-		"infra_errors":        s.Infra,
-		"simulated_time":      "none (no clock in the system)",
-		"fault_kinds":         map[string]interface{}{"map_iteration_order_permutations": s.S2Permuted, "goroutine_switches_at_startup": s.S3Switches},
+		"s2_map_ranges_permuted":          s.S2Permuted,
+		"s2_map_range_sites_hit":          s.S2Sites,
+		"s3_startup_schedules":            s.S3Runs,
+		"s3_distinct_schedules":           len(s.S3Scheds),
+		"s3_switches":                     s.S3Switches,
+		"s3_runs_with_permuted_map_order": s.S3MapOrd,
+		"infra_errors":                    s.Infra,
+		"simulated_time":                  "none (no clock in the system)",
+		"fault_kinds":                     map[string]interface{}{"map_iteration_order_permutations": s.S2Permuted, "goroutine_switches_at_startup": s.S3Switches},
 		"real_vs_stub": map[string]string{
 			"real": "whole interpreter built from /repo's tree; every `range` over a map and every goroutine/channel/mutex operation of the scratch copy goes through the seam",
 			"stub": "callee S, stdout; iteration order of Go maps and goroutine choice are decided by the simulator; map ranges inside dependencies (echo, encoding/json) are not reachable",
